@@ -22,7 +22,7 @@ RULE = ("seeded graphs with 1..12 vertices incl. isolated ones (G(n,p), stars, p
         "and edge attributes; arbitrary labels), phi in {0, 2^-53, 0.1, 0.3, 0.5, 0.9, 1-2^-53, 1}, float schedules "
         "uniform / extreme (0.0, 2^-53, 1-2^-53) / lo / hi / mix; 35% of the runs are histories on ONE graph object whose edges the "
         "caller edits in place between two calls (edges added / removed, a vertex attached, degree-preserving double edge swaps), every clause re-evaluated against "
-        "the edited graph; 15% of the runs and two exact-law scenarios pass phi as a numpy float64; non-trivial = graph has >= 1 edge; distinct = distinct "
+        "the edited graph; 12% of the graphs carry self-loops (also three exact-law scenarios); 15% of the runs and two exact-law scenarios pass phi as a numpy float64; non-trivial = graph has >= 1 edge; distinct = distinct "
         "execution digests.  Exact law: on a catalogue of small (multi)graphs - stars, multi-spoke stars, disjoint edges, two "
         "stars, fragments larger than the giant, triangle plus path - the distribution of N*S under uniform decisions vs the "
         "exact law from enumerating all edge subsets, rigorous KL bound")
